@@ -21,7 +21,7 @@ from .. import common as C, gox
 PROP = 'C13'
 
 
-def parser_verdict(lines, tmpdir):
+def parser_verdict(lines, tmpdir, raw=False):
     text = '\n'.join(lines) + '\nprofile p @{exec_path} {\n}\n'
     with tempfile.NamedTemporaryFile('w', suffix='.aa', delete=False, dir=tmpdir) as f:
         f.write(text); n = f.name
@@ -44,7 +44,7 @@ def parser_verdict(lines, tmpdir):
     vals = {}
     for m in re.finditer(r'^@(\w+) = (.*)$', out, re.M):
         vs = re.findall(r'"([^"]*)"', m.group(2))
-        vals[m.group(1)] = sorted({re.sub(r'/+', '/', v) for v in vs})
+        vals[m.group(1)] = sorted(set(vs)) if raw else sorted({re.sub(r'/+', '/', v) for v in vs})
     if r.returncode != 0:
         return {'error:' + out.strip().split('\n')[-1][:100]}, vals
     return set(), vals
@@ -98,10 +98,62 @@ def run(tier):
     for v in tj['violations']:
         fnd.report(v['sig'], v['what'] + ' -- history: ' + ' || '.join(v['input']), {'history': v['input']})
     ev.add(builtin_table_histories=tj['sequences'], builtin_table_files=tj['files'], builtin_table_history_depth=depth)
+    # extras: spellings judged by the reference parser directly (quoted values, labels with //, trailing comments)
+    xr = subprocess.run([bins['c13x'], '-extras', '-len', '4' if tier == 'thorough' else '3'], capture_output=True, text=True)
+    if xr.returncode != 0:
+        raise SystemExit('HARNESS ERROR: c13x -extras: ' + xr.stderr[-1000:])
+    xcases = [json.loads(l) for l in xr.stdout.split('\n') if l.startswith('{"')]       # Parse prints 'Unknown rule' lines on stdout
+    tmpdir = os.path.join(C.scratch(), 'c13'); os.makedirs(tmpdir, exist_ok=True)
+    xver = list(pool.map(lambda c: parser_verdict(c['lines'], tmpdir, raw=True), xcases))
+
+    def norm(vs):
+        out = set()
+        for v in vs:
+            if len(v) >= 2 and v[0] == '"' and v[-1] == '"':
+                v = v[1:-1]                                   # the quotes delimit the value
+            out.add(re.sub(r'/+', '/', v) if v.startswith('/') else v)     # // only folds in a path
+        return sorted(out)
+    xok = 0
+    for c, (cls0, vals) in zip(xcases, xver):
+        other = any(k.startswith('error:') for k in cls0)
+        cls = {k for k in cls0 if not k.startswith('error:')}
+        ex = {'preamble_lines': c['lines']}
+        eg = ' -- e.g. ' + ' ; '.join(c['lines'])
+        if 'append-before-def' in cls:
+            continue
+        if c.get('panic'):
+            fnd.report('extras-panic', 'Parse+Resolve panics on a preamble the reference parser reads: ' + c['panic'][:160] + eg, ex); continue
+        if not c.get('perr'):
+            # what Parse makes of the non-variable lines does not depend on the variables
+            cnt = {}
+            for r in c.get('before') or []:
+                cnt[r.split('|', 1)[0]] = cnt.get(r.split('|', 1)[0], 0) + 1
+            bad = [k for k, n in c['kinds'].items() if cnt.get(k, 0) != n]
+            if bad:
+                fnd.report('extras-preamble-rule-not-parsed kind=' + bad[0], 'input has %d %s line(s), the parsed preamble has %d' % (c['kinds'][bad[0]], bad[0], cnt.get(bad[0], 0)) + eg, ex); continue
+        if cls:
+            if not c.get('rerr') and not c.get('perr'):
+                fnd.report('extras-missing-error class=' + '+'.join(sorted(cls)), 'the reference parser reports %s, Resolve returns no error' % sorted(cls) + eg, ex)
+            continue
+        if other:
+            continue                                            # rejected for a reason outside the three classes: not judged
+        xok += 1
+        if c.get('perr') or c.get('rerr'):
+            fnd.report('extras-spurious-error', 'Parse/Resolve fails on a preamble the reference parser expands: ' + str(c.get('perr') or c.get('rerr'))[:160] + eg, ex); continue
+        if c.get('before') != c.get('after'):
+            fnd.report('extras-preamble-rule-lost-or-altered', 'non-variable preamble rules before Resolve %s, after %s' % (c.get('before'), c.get('after')) + eg, ex); continue
+        for name, want in vals.items():
+            got = norm(c['vars'].get(name, []))
+            if got != norm(want):
+                kind = 'quoted' if any('"' in l for l in c['lines'] if l.startswith('@{')) and any('"' in v for v in c['vars'].get(name, [])) else 'plain'
+                fnd.report('extras-wrong-values var=%s kind=%s' % (name, kind), '@{%s} resolves to %s, apparmor_parser expands it to %s' % (name, c['vars'].get(name), want) + eg, ex); break
+        else:
+            if norm(c.get('att') or []) != norm(vals.get('exec_path', [])):
+                fnd.report('extras-wrong-attachment', 'attachment resolves to %s, apparmor_parser expands @{exec_path} to %s' % (c.get('att'), vals.get('exec_path')) + eg, ex)
+    ev.add(extras_sequences=len(xcases), extras_expanded_by_the_reference_parser=xok)
     # conformance of the reference expander with the reference parser
     dump = subprocess.run([bins['c13x'], '-len', str(LC), '-dump'] + cyc, capture_output=True, text=True)
     cases = [json.loads(l) for l in dump.stdout.split('\n') if l.strip()]
-    tmpdir = os.path.join(C.scratch(), 'c13'); os.makedirs(tmpdir, exist_ok=True)
     verdicts = list(pool.map(lambda c: parser_verdict(c['lines'], tmpdir), cases))
     disagree = 0
     for c, (cls, vals) in zip(cases, verdicts):
@@ -118,7 +170,7 @@ def run(tier):
     pool.shutdown()
     ev.sample({'preamble': res[4]['alphabet'][4:9], 'reference_class': 'ok'})
     ev.sample({'classes_of_explored_preambles': classes})
-    ev.add(states=total + tj['sequences'], transitions=total + tj['sequences'], traces_validated_against_impl=len(cases), sequences=total, max_lines=L,
+    ev.add(states=total + tj['sequences'], transitions=total + tj['sequences'], traces_validated_against_impl=len(cases) + len(xcases), sequences=total, max_lines=L,
            reference_succeeds_on=classes.get('ok', 0), excluded_append_before_definition=classes.get('append-before-def', 0),
            conformance_cases_vs_apparmor_parser=len(cases), alphabet=res[0]['alphabet'])
     ev.add(rule='state = one preamble (sequence of distinct alphabet lines) pushed through the real Parse+Resolve; traces_validated = preambles on which the reference expander was compared with apparmor_parser -D expanded-variables')
